@@ -77,7 +77,7 @@ pub fn run(r: &mut Runner) {
     let exps: Vec<i32> = if quick { (-1022..=1023).step_by(29).chain(-12..=12).chain([-1022, 1023]).collect() } else { (-1022..=1023).step_by(3).chain(-40..=40).collect() };
     let lf = vec![0u64, (1u64 << 52) - 1, gen_fracs(1)[0], weyl_fracs(1, 32)[0]];
     let mut xs = dd_grid(&exps, &hf, if quick { &[0, 1, 10, 53] } else { &[0, 1, 2, 10, 30, 53, 200] }, &lf, &[5e-324]);
-    for k in -3000..=3000 {
+    for k in -4400..=4400 {
         let h = k as f64 * 0.25;
         for lo in [0.0, 3e-17, -3e-17] {
             let x = [h, lo * (1.0 + h.abs())];
